@@ -1,11 +1,112 @@
 package main
 
 import (
+	"fmt"
 	"go/ast"
 	"go/token"
 	"strconv"
 	"strings"
+	"unicode"
 )
+
+// c18ReturnOfIf translates the single `return <expr>` in the body of the nth if statement (source order) of a function.
+func (o *out) c18ReturnOfIf(fs funcSpec, nth int) {
+	p, fd := findFunc(fs.dir, fs.recv, fs.name)
+	if fd == nil {
+		o.brokenDef(fs.coqName, "function "+fs.dir+":"+fs.recv+"."+fs.name+" not found")
+		return
+	}
+	var found ast.Expr
+	k := 0
+	ast.Inspect(fd.Body, func(n ast.Node) bool {
+		if found != nil {
+			return false
+		}
+		if is, ok := n.(*ast.IfStmt); ok {
+			if k == nth && len(is.Body.List) == 1 {
+				if rs, ok := is.Body.List[0].(*ast.ReturnStmt); ok && len(rs.Results) == 1 {
+					found = rs.Results[0]
+					return false
+				}
+			}
+			k++
+		}
+		return true
+	})
+	if found == nil {
+		o.brokenDef(fs.coqName, fmt.Sprintf("if statement #%d of %s is not `if c { return e }`", nth, fs.name))
+		return
+	}
+	t := o.newTr(p, fs)
+	c := t.expr(found)
+	if t.err != nil {
+		o.brokenDef(fs.coqName, t.err.Error())
+		return
+	}
+	o.f("Definition %s %s : %s :=\n  %s.\n(* from %s:%s.%s : return %s *)\n", fs.coqName, fs.params, fs.retType, c, fs.dir, fs.recv, fs.name,
+		strings.ReplaceAll(printNode(p.fset, found), "*)", "* )"))
+}
+
+// c18LastReturn translates the final `return <expr>` statement of a function body.
+func (o *out) c18LastReturn(fs funcSpec) {
+	p, fd := findFunc(fs.dir, fs.recv, fs.name)
+	if fd == nil || len(fd.Body.List) == 0 {
+		o.brokenDef(fs.coqName, "function "+fs.dir+":"+fs.recv+"."+fs.name+" not found")
+		return
+	}
+	rs, ok := fd.Body.List[len(fd.Body.List)-1].(*ast.ReturnStmt)
+	if !ok || len(rs.Results) != 1 {
+		o.brokenDef(fs.coqName, "last statement of "+fs.name+" is not a single-value return")
+		return
+	}
+	t := o.newTr(p, fs)
+	c := t.expr(rs.Results[0])
+	if t.err != nil {
+		o.brokenDef(fs.coqName, t.err.Error())
+		return
+	}
+	o.f("Definition %s %s : %s :=\n  %s.\n(* from %s:%s.%s : final return %s *)\n", fs.coqName, fs.params, fs.retType, c, fs.dir, fs.recv, fs.name,
+		printNode(p.fset, rs.Results[0]))
+}
+
+// c18UpperRuns: unicode.ToUpper of the toolchain that builds relic, restricted to single UTF-16 code units outside the
+// surrogate range, as maximal runs (lo, hi, delta) with ToUpper(u) = u + delta.
+func (o *out) c18UpperRuns(coqName string) {
+	var parts []string
+	lo, hi, delta := -1, -1, 0
+	flush := func() {
+		if lo >= 0 {
+			parts = append(parts, fmt.Sprintf("(%d, %d, %s)", lo, hi, zlit(delta)))
+		}
+		lo = -1
+	}
+	for u := 0; u < 0x10000; u++ {
+		if u >= 0xd800 && u <= 0xdfff {
+			flush()
+			continue
+		}
+		d := int(unicode.ToUpper(rune(u))) - u
+		if d == 0 {
+			flush()
+			continue
+		}
+		if lo >= 0 && d == delta && u == hi+1 {
+			hi = u
+			continue
+		}
+		flush()
+		lo, hi, delta = u, u, d
+	}
+	flush()
+	o.f("Definition %s : list (Z * Z * Z) := [%s].\n(* unicode.ToUpper (Unicode %s) on UTF-16 code units: %d runs *)\n", coqName, strings.Join(parts, "; "), unicode.Version, len(parts))
+}
+
+func zlit(v int) string {
+	if v < 0 {
+		return fmt.Sprintf("(%d)", v)
+	}
+	return strconv.Itoa(v)
+}
 
 // c18NewNodeRed: in redblack.Tree.Insert, is the new node created with Red: true ?
 func (o *out) c18NewNodeRed(coqName string) {
@@ -122,9 +223,20 @@ func init() {
 		o.condOf(funcSpec{dir: d, recv: "ComDoc", name: "writeDirStream", coqName: "wds_v4_count", params: "(version : Z)", retType: "bool", leaves: map[string]string{"r.Header.Version": "version"}}, "if:r.Header.Version")
 		o.callOrder(d, "ComDoc", "Close", "close_order", []string{"writeShortSAT", "writeDirStream", "allocSectorTables", "writeSAT", "writeMSAT", "Truncate"})
 		o.callOrder(d, "ComDoc", "AddFile", "addfile_order", []string{"DeleteFile", "addStream", "newDirEnt"})
-		// directory comparator (two steps: NameLength, then the decoded name)
-		o.decisionFunc(funcSpec{dir: d, name: "lessDirEnt", coqName: "less_dirent_gen", params: "(la lb : Z) (name_lt : bool)", retType: "bool",
-			leaves: map[string]string{"e.NameLength": "la", "f.NameLength": "lb", "e.name < f.name": "name_lt"}, ignore: []string{"i.(*DirEnt)"}})
+		// directory comparator: NameLength first, then upper-cased UTF-16 code units in a loop (hand-modelled around these pieces)
+		ll := map[string]string{"e.NameLength": "la", "f.NameLength": "lb", "int(e.NameLength)": "la", "k": "k", "n": "n",
+			"len(e.NameRunes)": "cap", "a": "a", "b": "b", "u": "u", "r": "r"}
+		o.condOf(funcSpec{dir: d, name: "lessDirEnt", coqName: "less_len_differs", params: "(la lb : Z)", retType: "bool", leaves: ll}, "if:", 0)
+		o.c18ReturnOfIf(funcSpec{dir: d, name: "lessDirEnt", coqName: "less_len_ret", params: "(la lb : Z)", retType: "bool", leaves: ll}, 0)
+		o.exprOfAssign(funcSpec{dir: d, name: "lessDirEnt", coqName: "less_n", params: "(la : Z)", retType: "Z", leaves: ll}, "n", 0)
+		o.condOf(funcSpec{dir: d, name: "lessDirEnt", coqName: "less_loop_cond", params: "(k n cap : Z)", retType: "bool", leaves: ll}, "for:", 0)
+		o.condOf(funcSpec{dir: d, name: "lessDirEnt", coqName: "less_unit_differs", params: "(a b : Z)", retType: "bool", leaves: ll}, "if:", 1)
+		o.c18ReturnOfIf(funcSpec{dir: d, name: "lessDirEnt", coqName: "less_unit_ret", params: "(a b : Z)", retType: "bool", leaves: ll}, 1)
+		o.c18LastReturn(funcSpec{dir: d, name: "lessDirEnt", coqName: "less_equal_ret", params: "", retType: "bool", leaves: ll})
+		o.condOf(funcSpec{dir: d, name: "upperUnit", coqName: "upper_unit_is_surrogate", params: "(u : Z)", retType: "bool", leaves: ll}, "if:", 0)
+		o.condOf(funcSpec{dir: d, name: "upperUnit", coqName: "upper_unit_fits", params: "(r : Z)", retType: "bool", leaves: ll}, "if:", 1)
+		o.c18UpperRuns("go_upper_runs")
+		fingerprint(d, "", "upperUnit")
 		// red-black insertion: colour of new nodes and the root
 		o.c18NewNodeRed("rb_new_node_red")
 		o.hasStmt(rb, "Tree", "Insert", "t.Root.Red = false", "rb_root_blackened")
